@@ -5,12 +5,135 @@ import gen_table as G
 RULE = ("generated scripts of 1-5 CREATE TABLE statements of the core column syntax, 1-25 columns each, every column with a "
         "random subset and order of NULL/NOT NULL, DEFAULT (ints of 1-21 digits, negative, strings, NULL, words), PRIMARY KEY, "
         "UNIQUE, REFERENCES [s.]t[(c)] [ON DELETE a][ON UPDATE a]; types of one/two words with (n)/(p,s); keyword case, spacing "
-        "around commas/parentheses and line layout random; expected = harness/gen_table.expected_table per table, compared in "
+        "around commas/parentheses, line layout and line ends (LF / CRLF) random; a quarter of the scripts name columns with keyword-like words "
+        "(comment, order, key, type ...), a third reference keyword-named columns; expected = harness/gen_table.expected_table per table, compared in "
         "full and in order. non-trivial = distinct script with >= 3 columns in total")
-PARTIAL = ["the end-to-end statement for the Table fragment is explored against the specification; the Coq side proves the "
-           "lexer/LR structure for the column list (see Props/C01.v) — the semantic actions of p_column/p_defcolumn are not yet "
-           "under a theorem"]
-ASSUMES = ["harness/gen_table.expected_table is the reading of C01 for the fragment"]
+PARTIAL = ["the theorem (Props/C01.v C01_columns_exact) is about the parser stage (lexer flag logic, LALR driver on the real tables, "
+           "semantic actions) for ONE statement of any size; the scanner (regex cutting of the text into lexemes), the line "
+           "pre-processor, the output stage (table_init / to_dict) and scripts of several tables are tied to it by the "
+           "correspondence and searched here against the extracted Coq denote and the Python reading of the property",
+           "names, type words and values under the theorem are plain words (not grammar keywords, no dots/brackets); keyword-named "
+           "columns, ARRAY/ENUM/IDENTITY types, function-call defaults, multi-word referential actions (SET NULL) are explored only"]
+ASSUMES = ["harness/gen_table.expected_table is the reading of C01 for the run() output of the fragment",
+           "Spec/Table.v denote is the reading of C01 for the parser stage"]
+
+
+def kwc(rng, w):
+    return "".join(c.upper() if rng.random() < 0.5 else c.lower() for c in w) if rng.random() < 0.6 else w
+
+
+def coq_args(t, rng):
+    """gen_table AST -> flat arguments of the tab_spec command (Spec/Table.v table_of_args), keyword spellings random.
+    A reference directly followed by NULL / NOT NULL takes it as its own trailing clause (the grammar's reading)."""
+    a = [kwc(rng, "CREATE"), kwc(rng, "TABLE"), t["schema"] or "", t["name"]]
+    for c in t["cols"]:
+        ty = c["type"].split(" ")
+        sz = c["size"] or ()
+        a += ["C", c["name"], ty[0], ty[1] if len(ty) > 1 else "", str(sz[0]) if len(sz) >= 1 else "", str(sz[1]) if len(sz) >= 2 else ""]
+        opts = list(c["opts"])
+        i = 0
+        while i < len(opts):
+            o = opts[i]
+            i += 1
+            if o[0] == "null":
+                a += ["N", kwc(rng, "NULL"), ""] if o[1] else ["NN", kwc(rng, "NOT"), kwc(rng, "NULL")]
+            elif o[0] == "default":
+                txt = o[1]
+                if txt.upper() == "NULL":
+                    a += ["DN", kwc(rng, "DEFAULT"), txt]
+                elif txt.startswith("'"):
+                    a += ["DS", kwc(rng, "DEFAULT"), txt]
+                else:
+                    a += ["DW", kwc(rng, "DEFAULT"), txt]
+            elif o[0] == "unique":
+                a += ["UQ", kwc(rng, "UNIQUE"), ""]
+            elif o[0] == "pk":
+                a += ["PK", kwc(rng, "PRIMARY"), kwc(rng, "KEY")]
+            elif o[0] == "ref":
+                r = o[1]
+                a += ["R", kwc(rng, "REFERENCES"), r["schema"] or "", r["table"], r["column"] or ""]
+                a += [kwc(rng, "ON"), kwc(rng, "DELETE"), r["on_delete"]] if r["on_delete"] else ["", "", ""]
+                a += [kwc(rng, "ON"), kwc(rng, "UPDATE"), r["on_update"]] if r["on_update"] else ["", "", ""]
+                if i < len(opts) and opts[i][0] == "null":
+                    a += ["N", kwc(rng, "NULL"), ""] if opts[i][1] else ["NN", kwc(rng, "NOT"), kwc(rng, "NULL")]
+                    i += 1
+                else:
+                    a += ["", "", ""]
+    return a
+
+
+def text_of_lexemes(lxs, rng):
+    """a statement text whose lexemes are lxs: words separated by blanks, dots glued or spaced"""
+    out = ""
+    for i, (rule, txt) in enumerate(lxs):
+        if rule == "t_DOT" or (i > 0 and lxs[i - 1][0] == "t_DOT"):
+            out += (txt if rng.random() < 0.8 else " " + txt)
+        else:
+            out += (" " if i else "") + txt + (" " if rng.random() < 0.2 else "")
+    return out + " "
+
+
+def run_keeps(v, d):
+    """the (encoded) run() result is one table whose schema, name and column list are those of the model value d"""
+    if not (isinstance(v, list) and len(v) == 1 and isinstance(v[0], dict) and "__dict__" in v[0]):
+        return False
+    e = v[0]["__dict__"]
+    if not all(k in e and canon_impl(e[k]) == canon_model(d[k]) for k in ("table_name", "schema")):
+        return False
+    # the output stage moves the per-column primary_key flag into the table's primary_key list (property C02's subject)
+    # and reports a primary-key column as not nullable whatever a (contradictory) later NULL said
+    cols = [{k: (False if k == "nullable" and c["primary_key"] else x) for k, x in c.items() if k != "primary_key"} for c in d["columns"]]
+    pk = [c["name"] for c in d["columns"] if c["primary_key"]]
+    return "columns" in e and canon_impl(e["columns"]) == canon_model(cols) and canon_impl(e.get("primary_key")) == canon_model(pk)
+
+
+def theorem_forms(ctx, res):
+    """the forms under C01_columns_exact: expected value = the extracted Coq denote (parser stage), and the columns of run()"""
+    rng = ctx.rng
+    n = 1500 if ctx.thorough else 250
+    asts = []
+    for i in range(n):
+        nc = rng.choice([1, 2, 3, 5, 9, 17, 40]) if i % 6 == 0 else None
+        t = G.gen_table(rng, ncols=nc, constraints=False, name=rng.choice(G.TABLE_NAMES))
+        if i % 7 == 0:
+            for c in t["cols"]:            # stress: options repeated / in long chains, several references
+                extra = [G.gen_column(rng, "z")["opts"] for _ in range(2)]
+                c["opts"] = c["opts"] + extra[0] + extra[1]
+        asts.append((t, coq_args(t, rng)))
+    for norm in (False, True):
+        sp = ctx.model.map([("tab_spec", ["1" if norm else "0"] + a) for _, a in asts])
+        texts = [text_of_lexemes(s_["lexemes"], rng) if "lexemes" in s_ else None for s_ in sp]
+        SC = ctx.model.map([("scan", [t or ""]) for t in texts])
+        TR = ctx.impl.map([{"op": "trace", "s": t or "", "ctor": {"normalize_names": norm}} for t in texts])
+        RU = ctx.impl.map([{"op": "run", "ddl": (t or "").rstrip() + ";", "ctor": {"normalize_names": norm}} for t in texts])
+        res.evaluations += 2 * len(asts)
+        for (t, a), s_, x, sc, tr, ru in zip(asts, sp, texts, SC, TR, RU):
+            if not s_.get("wf"):
+                res.count("theorem_form:not_wf")
+                continue
+            res.count("theorem_form:wf")
+            res.count("theorem_form:cols:%d" % min(len(t["cols"]), 40))
+            if "ok" not in sc or [list(l) for l in sc["ok"]] != [list(l) for l in s_["lexemes"]]:
+                res.violation("correspondence", "the scanner model does not cut the rendered statement into the lexemes of the specification",
+                              stmt=x, lexemes=s_["lexemes"], oracle="scan")
+                continue
+            want = canon_model(s_["denote"])
+            io = impl_outcome(tr)
+            got = canon_impl(io[1]["result"]) if io[0] == "ok" else ("raise", io[1])
+            if got != want:
+                res.violation("input", "parser stage: the entity differs from the Coq specification (Table.denote): %s" %
+                              (json.dumps(py_of_impl(io[1]["result"]))[:600] if io[0] == "ok" else str(io)),
+                              stmt=x, norm=norm, args=a, oracle="coq_denote")
+                continue
+            # the run() result keeps schema, name and the column list of the entity
+            ok = "ok" in ru
+            if ok:
+                ok = run_keeps(ru["ok"], s_["denote"])
+            if not ok:
+                res.violation("input", "run(): columns / name / schema differ from the Coq specification (Table.denote)",
+                              ddl=x.rstrip() + ";", norm=norm, args=a, oracle="coq_denote_run")
+            else:
+                res.nontrivial.add(x)
 
 
 def run(ctx, res):
@@ -22,8 +145,12 @@ def run(ctx, res):
         tabs = []
         for j in range(k):
             nc = rng.choice([1, 2, 3, 4, 5, 6, 8, 12, 25]) if i % 5 == 0 else None
-            tabs.append(G.gen_table(rng, ncols=nc, constraints=False, name="t%d_%d" % (i % 50, j)))
+            tabs.append(G.gen_table(rng, ncols=nc, constraints=False, name="t%d_%d" % (i % 50, j), kw_refs=(i % 3 == 0),
+                                    kw_names=(i % 4 == 0)))
         text = "\n".join(G.render_table(t, rng, oneline=(rng.random() < 0.25)) for t in tabs) + "\n"
+        if i % 6 == 1:
+            text = text.replace("\n", "\r\n")          # Windows line ends
+            res.count("layout:crlf")
         scripts.append((tabs, text))
     R = ctx.impl.map([{"op": "run", "ddl": x} for _, x in scripts])
     res.evaluations += len(scripts)
@@ -53,9 +180,20 @@ def run(ctx, res):
             res.nontrivial.add(x)
     res.samples.append({"ddl": scripts[0][1], "expected": [G.expected_table(t) for t in scripts[0][0]]})
     res.samples.append({"ddl": scripts[5][1]})
+    if ctx.model:
+        theorem_forms(ctx, res)
 
 
 def replay(ctx, payload):
+    if payload.get("oracle") in ("coq_denote", "coq_denote_run") and ctx.model:
+        norm = payload["norm"]
+        s_ = ctx.model.one("tab_spec", ["1" if norm else "0"] + payload["args"])
+        if payload["oracle"] == "coq_denote":
+            tr = ctx.impl.one({"op": "trace", "s": payload["stmt"], "ctor": {"normalize_names": norm}})
+            io = impl_outcome(tr)
+            return not (io[0] == "ok" and canon_impl(io[1]["result"]) == canon_model(s_["denote"]))
+        ru = ctx.impl.one({"op": "run", "ddl": payload["ddl"], "ctor": {"normalize_names": norm}})
+        return not ("ok" in ru and run_keeps(ru["ok"], s_["denote"]))
     if payload.get("oracle") == "columns_spec":
         r = ctx.impl.one({"op": "run", "ddl": payload["ddl"]})
         got = G.norm_refs(py_of_impl(r["ok"])) if "ok" in r else None
